@@ -19,47 +19,87 @@ Record Inv (s : st) : Prop := {
 Lemma Inv_init : Inv init.
 Proof. split; simpl; intros; try discriminate; try congruence; try tauto. Qed.
 
-Lemma guard_refines s r : Inv s -> send_guard 0 s r = true -> send_guard 1 s r = true.
+(* when a Send fails although neither end has cached an error, the handler has returned *)
+Lemma guard_returned p s c i m :
+  Inv s -> send_guard p s (RErr c i m) = true ->
+  c_sendErr s = None -> c_recvErr s = None -> returned s = true.
 Proof.
-  intros I G. unfold send_guard in *. simpl in *. destruct r as [|p|c i m]; auto.
-  - apply andb_prop in G as [G1 G2]. rewrite G2.
+  intros I G Hs Hr. unfold send_guard in G. rewrite Hs, Hr in G. simpl in G.
+  destruct (p =? 0).
+  { apply andb_prop in G as [_ G]. exact G. }
+  destruct (p =? 2).
+  { rewrite andb_false_r in G. discriminate. }
+  destruct (p =? 3).
+  { destruct (c_called s) eqn:Hc.
+    - destruct (inv_a _ I Hc). exact Hs.
+    - apply andb_prop in G as [_ G]. exact G. }
+  apply orb_prop in G as [G|G]; apply andb_prop in G as [_ G]; auto.
+  destruct (inv_a _ I G). exact Hs.
+Qed.
+
+(* every profile's Send results are allowed by the contract *)
+Lemma guard_refines p s r : Inv s -> send_guard p s r = true -> send_guard 1 s r = true.
+Proof.
+  intros I G. unfold send_guard in *. change (1 =? 0) with false. change (1 =? 2) with false.
+  change (1 =? 3) with false. cbn [orb].
+  destruct r as [|y|c i m]; auto.
+  - (* ROk *)
+    destruct ((p =? 0) || (p =? 2)); auto.
+    apply andb_prop in G as [G1 G2]. rewrite G2.
     destruct (c_called s) eqn:Hc.
     { destruct (inv_a _ I Hc). destruct (c_sendErr s); [discriminate|reflexivity]. }
     destruct (c_failed s) eqn:Hf; auto.
     destruct (inv_b _ I Hf) as [H|H]; exfalso; apply H.
     + destruct (c_sendErr s); [discriminate|reflexivity].
     + destruct (c_recvErr s); [discriminate|reflexivity].
-  - destruct (c_sendErr s) as [e|] eqn:Es.
-    + apply N.eqb_eq in G. subst c.
-      destruct (inv_c _ I _ Es) as [[-> Hc]|[-> Hr]].
-      * rewrite Hc. reflexivity.
-      * rewrite Hr. change (cEOF =? cEOF) with true. apply orb_true_r.
-    + apply andb_prop in G as [G1 G2]. rewrite G1.
-      assert (returned s = true) as ->.
-      { apply orb_prop in G2 as [G2|G2]; auto. apply (inv_d _ I).
-        destruct (c_recvErr s); [discriminate|discriminate G2]. }
-      rewrite andb_true_r. apply orb_true_r.
+  - (* RErr *)
+    destruct (p =? 0).
+    { destruct (c_sendErr s) as [e|] eqn:Es.
+      + apply N.eqb_eq in G. subst c.
+        destruct (inv_c _ I _ Es) as [[-> Hc]|[-> Hr]].
+        * rewrite Hc. reflexivity.
+        * rewrite Hr. change (cEOF =? cEOF) with true. apply orb_true_r.
+      + apply andb_prop in G as [G1 G2]. rewrite G1.
+        assert (returned s = true) as ->.
+        { apply orb_prop in G2 as [G2|G2]; auto. apply (inv_d _ I).
+          destruct (c_recvErr s); [discriminate|discriminate G2]. }
+        rewrite andb_true_r. apply orb_true_r. }
+    destruct (p =? 2).
+    { destruct (c_recvErr s) as [o|] eqn:Er; simpl in G.
+      + rewrite G. rewrite (inv_d _ I) by (rewrite Er; discriminate). apply orb_true_r.
+      + apply andb_prop in G as [G1 G2]. rewrite G1.
+        destruct (c_sendErr s) as [e|] eqn:Es; [|discriminate]. apply N.eqb_eq in G2. subst e.
+        destruct (inv_c _ I _ Es) as [[_ Hc]|[Hx _]]; [rewrite Hc; reflexivity|discriminate]. }
+    destruct (p =? 3); auto.
+    destruct (c_called s) eqn:Hc.
+    { rewrite G. reflexivity. }
+    apply andb_prop in G as [G1 G2]. rewrite G1.
+    assert (returned s = true) as ->.
+    { apply orb_prop in G2 as [G2|G2]; auto. apply (inv_d _ I).
+      destruct (c_recvErr s); [discriminate|discriminate G2]. }
+    apply orb_true_r.
 Qed.
 
-Lemma step_refines t s l s' :
-  Inv s -> step 0 t s l = Some s' -> step 1 t s l = Some s' /\ Inv s'.
+Lemma step_refines p t s l s' :
+  Inv s -> step p t s l = Some s' -> step 1 t s l = Some s' /\ Inv s'.
 Proof.
   intros I H.
   destruct l as [x r|r|r|r|y r|e].
   - (* CSend *)
-    unfold step in *. destruct (send_guard 0 s r) eqn:G; [|discriminate].
-    rewrite (guard_refines _ _ I G). split; auto.
-    destruct r as [|p|c i m]; inv H.
+    unfold step in *. destruct (send_guard p s r) eqn:G; [|discriminate].
+    rewrite (guard_refines _ _ _ I G). split; auto.
+    destruct r as [|y|c i m]; inv H.
     + destruct I; split; simpl; auto.
     + unfold send_guard in G. discriminate.
-    + unfold send_guard in G. simpl in G. destruct I as [Ia Ib Ic Id Ie]. split; simpl; auto.
+    + pose proof (guard_returned _ _ _ _ _ I G) as GR.
+      destruct I as [Ia Ib Ic Id Ie]. split; simpl; auto.
       * intros Hc. specialize (Ia Hc). destruct (c_sendErr s); congruence.
       * intros _. destruct (c_sendErr s); [left; discriminate|].
         destruct (c_recvErr s); simpl; [right; discriminate|left; discriminate].
       * intros e He. destruct (c_sendErr s) as [e0|] eqn:Es.
         -- inv He. apply Ic. reflexivity.
         -- destruct (c_recvErr s) eqn:Er; simpl in He; [discriminate|]. inv He.
-           right. split; auto. apply andb_prop in G as [_ G]. simpl in G. exact G.
+           right. split; auto.
   - (* CClose *)
     split; auto. unfold step in H. destruct r; try discriminate.
     destruct I as [Ia Ib Ic Id Ie].
@@ -106,17 +146,21 @@ Proof.
     split; simpl; auto. intros e0 He. destruct (Ic _ He) as [?|[? ?]]; auto.
 Qed.
 
-Theorem strict_refines_contract t : forall tr s s',
-  Inv s -> run 0 t s tr = Some s' -> run 1 t s tr = Some s'.
+Theorem refines_contract p t : forall tr s s',
+  Inv s -> run p t s tr = Some s' -> run 1 t s tr = Some s'.
 Proof.
   induction tr as [|l tr IH]; intros s s' I H; simpl in *; auto.
-  destruct (step 0 t s l) as [s1|] eqn:E; [|discriminate].
-  destruct (step_refines _ _ _ _ I E) as [E1 I1]. rewrite E1. eauto.
+  destruct (step p t s l) as [s1|] eqn:E; [|discriminate].
+  destruct (step_refines _ _ _ _ _ I E) as [E1 I1]. rewrite E1. eauto.
 Qed.
 
-(* the contract profile is strictly laxer: after CloseSend AND the terminal result, Send may
-   return EOF (websocket) where the mock returns StreamClosed *)
-Lemma contract_strictly_laxer :
-  let tr := [HRet None; CClose ROk; CRecv (RErr cEOF 0 []); CSend 5 (RErr cEOF 0 [])] in
-  (exists s, run 1 0 init tr = Some s) /\ run 0 0 init tr = None.
-Proof. split; [eexists|]; vm_compute; reflexivity. Qed.
+(* the implementations differ where two documented failure clauses overlap — after CloseSend AND
+   the terminal result, Send returns EOF on the websocket client but StreamClosed on the mock and
+   grpc clients — and the contract allows both *)
+Lemma profiles_differ :
+  let pre := [HRet None; CClose ROk; CRecv (RErr cEOF 0 [])] in
+  let a := pre ++ [CSend 5 (RErr cEOF 0 [])] in
+  let b := pre ++ [CSend 5 (RErr cClosed 0 [])] in
+  (run 2 1 init a <> None /\ run 0 0 init a = None /\ run 3 3 init a = None /\ run 1 1 init a <> None) /\
+  (run 2 1 init b = None /\ run 0 0 init b <> None /\ run 3 3 init b <> None /\ run 1 1 init b <> None).
+Proof. vm_compute. repeat split; discriminate. Qed.
